@@ -938,6 +938,18 @@ def R2(ctx, rule="R2", strict_order=True):
             cls = "call to %s" % p2
         elif kind in ("read", "expr"):
             cls = "value %s" % (sym[1],)
+            # `if graph.node_count() < 2 { return }`: with fewer than two functions there is no pair to examine
+            import re as _re
+            mt_ = _re.match(r"^(Lt|Le|Eq|Ge|Gt|Ne)\(daggy::Dag::<N, E, Ix>::node_count\(&\**arg1\), const\((\d+)\)\)$", str(sym[1]))
+            if kind == "expr" and mt_:
+                op_, k_ = mt_.group(1), int(mt_.group(2))
+                vals_ = {pc[sym] for pc in cm["pcs"] if sym in pc}
+                few_when_true = (op_ == "Lt" and k_ <= 2) or (op_ == "Le" and k_ <= 1) or (op_ == "Eq" and k_ <= 1)
+                many_when_true = (op_ == "Ge" and k_ <= 2) or (op_ == "Gt" and k_ <= 1) or (op_ == "Ne" and k_ == 0)
+                if (few_when_true and vals_ == {"0"}) or (many_when_true and "0" not in vals_ and vals_):
+                    ctx.ok(rule, "few-nodes", where, "the scan is skipped only for graphs with fewer than two functions (`%s`): no pair exists there" % (sym[1],))
+                    n_ok += 1
+                    continue
         # seen flag: a local bool read from a crate-local Vec<bool> that is set in this body
         if kind == "read" or kind == "unknown" or kind == "expr":
             ok_seen = False
@@ -3839,6 +3851,9 @@ def candidate_ok(ctx, body, cand, rank_allocs):
             base, one = strip_refs(inner[2]), inner[3]
     if base is None:
         return False, "candidate is `%s`, not ranks[parent] + 1" % fmt_expr(e, b)
+    one_s = strip_refs(one)
+    if one_s.kind == "agg" and one_s[2] == "rank::Rank" and len(one_s[4]) == 1:
+        one = one_s[4][0]        # `ranks[p] + Rank(1)` through `Add<Rank> for Rank` (its body was checked to add the fields)
     if not is_const(one, 1):
         return False, "increment is %s, not 1" % fmt_expr(one, b)
     er = elem_read(base)
